@@ -324,6 +324,15 @@ def targets():
 
 
 # --------------------------------------------------------------------------------------------------------- run time
+def _dist_args(rec):
+    """the two parameters of a recorded np.random.uniform / normal call, whether they were passed by position or by name (low/high, loc/scale)"""
+    kind, a, k = rec
+    names = ("low", "high") if kind == "uniform" else ("loc", "scale")
+    defaults = (0.0, 1.0)
+    vals = [a[i] if i < len(a) else k.get(names[i], defaults[i]) for i in range(2)]
+    return tuple(float(v) for v in vals)
+
+
 def runtime_part(run, tier, seed):
     import synapgrad
     from synapgrad.tensor import Tensor
@@ -430,7 +439,7 @@ def runtime_part(run, tier, seed):
                         run.violation(NAME + name + ".keeps_identity_shape_dtype_flag", "%s on %s %s: identity=%s shape=%s dtype=%s requires_grad=%s"
                                       % (name, shape, np.dtype(dt).name, r is t, t.shape, t.data.dtype, t.requires_grad), key={"initialiser": name, "dtype": np.dtype(dt).name}, replay={})
                     if exp is not None:
-                        if len(recorded) != 1 or recorded[0][0] != exp[0] or tuple(float(x) for x in recorded[0][1][:2]) != (exp[1], exp[2]):
+                        if len(recorded) != 1 or recorded[0][0] != exp[0] or _dist_args(recorded[0]) != (exp[1], exp[2]):
                             run.violation(NAME + name + ".draws_from_documented_distribution", "%s passed %s to numpy, expected %s" % (name, recorded, exp),
                                           key={"initialiser": name}, replay={})
                     if name == "constant_" and not np.all(t.data == dt(3.5)):
@@ -460,8 +469,7 @@ def runtime_part(run, tier, seed):
                     if len(recorded) != 1 or recorded[0][0] != dist:
                         run.violation(NAME + name + ".draws_from_documented_distribution", "%s drew %s" % (name, [r_[0] for r_ in recorded]), key={"initialiser": name}, replay={})
                         continue
-                    a = recorded[0][1]
-                    got = (float(a[0]), float(a[1]))
+                    got = _dist_args(recorded[0])
                     want = (-param, param) if dist == "uniform" else (0.0, param)
                     if not all(abs(g - w) <= 1e-12 * max(1, abs(w)) for g, w in zip(got, want)):
                         run.violation(NAME + name + ".documented_parameters", "%s on shape %s passed %s to np.random.%s, documented %s" % (name, shape, got, dist, want),
@@ -568,13 +576,13 @@ def runtime_part(run, tier, seed):
             L = mk()
             run.rt(("layer", type(L).__name__))
             b = 1.0 / math.sqrt(fan_in)
-            ok = len(recorded) in (1, 2) and all(r_[0] == "uniform" and abs(float(r_[1][0]) + b) < 1e-12 and abs(float(r_[1][1]) - b) < 1e-12 for r_ in recorded)
+            ok = len(recorded) in (1, 2) and all(r_[0] == "uniform" and abs(_dist_args(r_)[0] + b) < 1e-12 and abs(_dist_args(r_)[1] - b) < 1e-12 for r_ in recorded)
             ok = ok and len(recorded) == (2 if getattr(L, "bias", None) is not None else 1)
             ok = ok and L.weight.data.dtype == np.float32 and L.weight.requires_grad and np.all(np.abs(L.weight.data) <= b + 1e-7)
             if not ok:
                 opts = {k_: str(getattr(L, k_)) for k_ in ("kernel_size", "stride", "padding", "dilation") if hasattr(L, k_)}
                 run.violation("synapgrad.nn.layers.%s.reset_parameters.documented_parameters" % type(L).__name__, "layer %s drew %s, documented U(-%g, %g) with fan_in = %d" %
-                              (opts, [(r_[0], [float(v) for v in r_[1][:2]]) for r_ in recorded], b, b, fan_in), key={"layer": type(L).__name__, **opts}, replay={})
+                              (opts, [(r_[0], list(_dist_args(r_))) for r_ in recorded], b, b, fan_in), key={"layer": type(L).__name__, **opts}, replay={})
     finally:
         init.np = saved
 
